@@ -218,7 +218,18 @@ def run(ctx):
     keyed = func_params(rdf)[1:]
     ctx.check(keyed[:1] == ["descriptor"] and any("lru_cache" in norm(n) for n in ast.walk(prog.func("flow.record.stream.RecordFieldRewriter.__init__"))), "R16.4",
               "record_descriptor_for_fields:cache-key", "the descriptor cache is not keyed by the descriptor object", rdf, "lru_cache keyed by (descriptor, fields, exclude, new_fields)")
-    excl = [n for n in ast.walk(rdf) if isinstance(n, ast.Compare) and isinstance(n.ops[0], (ast.In, ast.NotIn)) and norm(n.comparators[0]) == "exclude"]
+    # names that hold the exclusion list: the parameter and locals computed from it (`excluded = exclude or ()`)
+    eparam = keyed[2] if len(keyed) > 2 else "exclude"
+    derived = {eparam}
+    grew = True
+    while grew:
+        grew = False
+        for st in walk_no_nested(rdf):
+            if isinstance(st, ast.Assign) and len(st.targets) == 1 and isinstance(st.targets[0], ast.Name) and st.targets[0].id not in derived \
+                    and {x.id for x in ast.walk(st.value) if isinstance(x, ast.Name)} & derived and not any(isinstance(x, ast.Call) for x in ast.walk(st.value)):
+                derived.add(st.targets[0].id)
+                grew = True
+    excl = [n for n in ast.walk(rdf) if isinstance(n, ast.Compare) and isinstance(n.ops[0], (ast.In, ast.NotIn)) and norm(n.comparators[0]) in derived]
     ctx.check(len(excl) >= 2, "R16.4", "record_descriptor_for_fields:exclude", "excluded fields are not removed in both the fields and the no-fields path", rdf, "exclude honoured on both paths")
 
 
